@@ -216,6 +216,22 @@ pub fn run_c09(cfg: &Cfg, rep: &mut Report) {
                         }
                     }
                 }
+                // auto-dictionary: all channels x numbers x values formed from integer literals
+                // that are new in the tree under test (nothing on the unchanged tree)
+                if shard == 0 {
+                    let xs = crate::util::extra_numbers14();
+                    for c in 0u8..16 {
+                        for &n in &xs {
+                            for &v in xs.iter().chain(bv.iter()) {
+                                if v <= vmax {
+                                    c09_case(reg, kind, name, c, n, v, rep);
+                                    nt += 1;
+                                    rep.count("auto_dictionary_cases", 1);
+                                }
+                            }
+                        }
+                    }
+                }
                 // all numbers x channels {0, 15} x boundary values
                 for n in (shard as u16..16384).step_by(nsh * nstride) {
                     for c in [0u8, 15] {
@@ -359,7 +375,11 @@ pub fn random_pn_event(rng: &mut Rng, channels: u8, nvalues: u8, polls: bool, ti
     } else {
         any_c
     };
-    let v = if dict {
+    let extra = crate::util::extra_literals();
+    let v = if dict && !extra.is_empty() && rng.chance(1, 2) {
+        let x = *rng.pick(extra);
+        if x <= 127 { x as u8 } else if rng.chance(1, 2) { (x >> 7) as u8 } else { (x & 127) as u8 }
+    } else if dict {
         *rng.pick(&crate::util::DICT_VALUES)
     } else if nvalues >= 128 {
         rng.below(128) as u8
@@ -432,15 +452,23 @@ pub fn run_c11(cfg: &Cfg, rep: &mut Report) {
         setups.push((vec![0, 3], vec![0, 6]));
         setups.push((vec![15, 12], vec![0, 6]));
     }
+    // auto-dictionary: values taken from integer literals that are new in the tree under test
+    let extra = crate::util::extra_values7();
+    if !extra.is_empty() && !cfg.as_c18 {
+        for c in crate::util::extra_channels() {
+            setups.push((vec![c], extra.clone()));
+        }
+        rep.count("auto_dictionary_explorer_runs", crate::util::extra_channels().len() as u64);
+    }
     for (chans, values) in setups {
         let alpha = pn_alphabet(&chans, &values, false, None);
-        let (st, _) = explore(cfg, PnMon::new(), &alpha, if chans.len() > 1 { 80_000 } else { 30_000 }, rep, false);
+        let (st, _) = explore(cfg, PnMon::new(), &alpha, if values.len() > 3 { 400_000 } else if chans.len() > 1 { 80_000 } else { 30_000 }, rep, false);
         rep.states += st.states;
         rep.transitions += st.transitions;
         rep.evaluations += st.transitions;
         rep.distinct_nontrivial += st.states;
         rep.max("max_explorer_depth", st.depth);
-        if !st.fixpoint {
+        if !st.fixpoint && values.len() <= 3 {
             rep.inconclusive("C11 explorer did not reach a fixpoint within the state bound");
         }
         rep.count("explorer_runs", 1);
@@ -717,6 +745,57 @@ pub fn run_c10(cfg: &Cfg, rep: &mut Report) {
         }
         if !st.fixpoint {
             rep.inconclusive("C10 prior-state explorer did not reach a fixpoint");
+        }
+    }
+    // auto-dictionary: prior states and messages formed from integer literals that are new in
+    // the tree under test (nothing on the unchanged tree)
+    let extra = crate::util::extra_values7();
+    if !extra.is_empty() && !cfg.as_c18 {
+        let nums = crate::util::extra_numbers14();
+        for chan in crate::util::extra_channels() {
+            let mut sample: Vec<PnM> = Vec::new();
+            for (reg, kind, _) in KINDS.iter().copied() {
+                let is14 = kind == 1;
+                for &n in nums.iter().take(12) {
+                    for &v in nums.iter().take(6).chain([0u16, 127].iter()) {
+                        if is14 || v <= 127 {
+                            sample.push(PnM { ch: chan, number: n, value: v, registered: reg, is14, dt: [0u8, 0, 1, 2][kind as usize] });
+                        }
+                    }
+                }
+            }
+            let step = (sample.len() / 96).max(1);
+            let sample: Vec<PnM> = sample.into_iter().step_by(step).collect();
+            let alpha = pn_alphabet(&[chan], &extra, false, None);
+            let init = PnVisit { mon: PnMon::new(), sample: std::sync::Arc::new(sample) };
+            let (st, _) = explore(cfg, init, &alpha, 20_000, rep, false);
+            rep.states += st.states;
+            rep.transitions += st.transitions;
+            tot_states += st.states;
+            rep.count("auto_dictionary_explorer_runs", 1);
+        }
+        // and straight encodings of every extra message on every channel
+        let mut mon = PnMon::new();
+        let mut hist: Vec<Ev> = Vec::new();
+        for c in 0u8..16 {
+            for (reg, kind, _) in KINDS.iter().copied() {
+                let is14 = kind == 1;
+                for &n in &nums {
+                    for &v in &nums {
+                        if is14 || v <= 127 {
+                            let m = PnM { ch: c, number: n, value: v, registered: reg, is14, dt: [0u8, 0, 1, 2][kind as usize] };
+                            let evs = crate_encoding(&m, is14, rep);
+                            if hist.len() > 2048 {
+                                hist.clear();
+                                hist.push(Ev::Reset);
+                                mon.apply(&Ev::Reset, rep, &|| vec!["reset".into()]);
+                            }
+                            feed_unit(&mut mon, &mut hist, &m, &evs, "encoding", rep);
+                            rep.count("auto_dictionary_cases", 1);
+                        }
+                    }
+                }
+            }
         }
     }
     rep.count("prior_state_explorer_states_total", tot_states);
